@@ -305,7 +305,7 @@ func GenPair(rt *rapid.T, o GenOpts) *Pair {
 	for _, op := range oldFiles {
 		e := old[op]
 		label := "f"
-		act := rapid.IntRange(0, 15).Draw(rt, label+".op")
+		act := rapid.IntRange(0, 16).Draw(rt, label+".op")
 		if o.MidBias && act < 3 && rapid.Bool().Draw(rt, label+".forceedit") {
 			act = 3
 		}
@@ -391,6 +391,26 @@ func GenPair(rt *rapid.T, o GenOpts) *Pair {
 			var d []string
 			data, m.Introduced, d = applyEdits(rt, e.Data, 1, label)
 			m.Edits, m.Identical, m.Op = 1, false, fmt.Sprintf("edit(src of copy)%v", d)
+		case 16: // a new file spliced from equal numbers of blocks of this file and of another old file
+			// (several equally good bsdiff candidates), original kept
+			var others []string
+			for _, q := range oldFiles {
+				if q != op && len(old[q].Data) >= 2*BlockSize {
+					others = append(others, q)
+				}
+			}
+			if len(e.Data) >= 2*BlockSize && len(others) > 0 {
+				y := old[rapid.SampledFrom(others).Draw(rt, label+".spliceother")].Data
+				kb := rapid.IntRange(1, min(len(e.Data), len(y))/BlockSize-1).Draw(rt, label+".spliceblocks")
+				sp := append(append(append([]byte{}, e.Data[:kb*BlockSize]...), Bytes(rapid.Uint64().Draw(rt, label+".spliceseed"), 100)...), y[:kb*BlockSize]...)
+				if rapid.Bool().Draw(rt, label+".splicerev") {
+					sp = append(append(append([]byte{}, y[:kb*BlockSize]...), Bytes(7, 100)...), e.Data[:kb*BlockSize]...)
+				}
+				np := freshPath(label + ".splice")
+				if place(np, sp, false, FileMeta{From: op, Op: "splice"}) {
+					p.Ops = append(p.Ops, fmt.Sprintf("splice %s + other -> %s (%d B)", op, np, len(sp)))
+				}
+			}
 		case 15: // replaced by unrelated content of another size
 			size := genSize(rt, o, label+".repl")
 			if size > MiB {
